@@ -489,7 +489,53 @@ def free_running(rc):
     rc.coverage['free_running_conformance'] = {'runs': 30, 'outcomes_outside_explored_set': bad}
 
 
+HASHSEED_SCRIPT = r'''
+import json, sys
+import tatsu
+out = []
+m = tatsu.compile("start = left:num op:'+' right:num [extra:num] $ ; num = value:/\\d+/ ;")
+out.append(json.dumps(m.parse('1+2')))                      # key order as produced (no sort_keys)
+out.append(repr(m.parse('1+2')))
+m2 = tatsu.compile("start = x:'a' | y:'b' z:'c' | w+:'d' {w+:'d'} v:'e' ;")
+out.append(json.dumps(m2.parse('b c')))
+out.append(json.dumps(m2.parse('d d e')))
+g = "start = a | _a_ ; a = 'x' `plain` ; _a_ = 'x' `sunder` ;"
+src = tatsu.to_python_sourcecode(g, name='U'); ns = {}; exec(compile(src, '<u>', 'exec'), ns)
+out.append(repr(ns['UParser']().parse('x', start='_a_')))
+out.append(repr(ns['UParser']().parse('x', start='a')))
+out.append(tatsu.compile(g).pretty())
+print(json.dumps(out))
+'''
+
+
+def hashseed_part(rc):
+    """"The same in a fresh process": fresh interpreters that differ only in PYTHONHASHSEED give the same results,
+    including the order of keys in ASTs and the rule a start name resolves to."""
+    import json
+    import os
+    import subprocess
+    from ..runner import REPO
+    outs = {}
+    for seed in ('0', '1', '2', '3', '4', '5', '6', '7'):
+        env = dict(os.environ, PYTHONHASHSEED=seed, PYTHONPATH=str(REPO))
+        r = subprocess.run([sys.executable, '-c', HASHSEED_SCRIPT], env=env, capture_output=True, text=True, timeout=120)
+        rc.add('evaluations', 7)
+        rc.add('states')
+        if r.returncode != 0:
+            rc.violation('hashseed/script-failed', seed=seed, error=r.stderr[-300:])
+            continue
+        outs[seed] = json.loads(r.stdout.strip().splitlines()[-1])
+    base = outs.get('0')
+    for seed, o in outs.items():
+        for i, (a, b) in enumerate(zip(base or [], o)):
+            if a != b:
+                rc.violation(f'hashseed/result-depends-on-hash-seed/{["ast-key-order", "ast-repr", "ast-key-order", "ast-key-order", "start-rule", "start-rule", "pretty"][i]}',
+                             seed=seed, with_seed_0=a, got=b)
+    rc.coverage['hash_seeds_compared'] = len(outs)
+
+
 def run(rc):
+    hashseed_part(rc)
     quick = rc.tier == 'quick'
     n = len(CALLS)
     hists = [h for k in (1, 2) for h in itertools.product(range(n), repeat=k)]
@@ -512,7 +558,7 @@ def run(rc):
     rc.rule = (f'histories: every sequence of length <= 2 over {n} API calls (compile/parse/tatsu.parse/codegen/generated parser/persistent model, with asmodel, '
                f'semantics, name, ignorecase, start, failing inputs, a second grammar reusing a class name) and every sequence of length 3 over '
                f'{"a reduced alphabet of " + str(len(REDUCED)) if quick else "all " + str(n)} calls, each in a pristine forked child, each call compared with '
-               'the same call executed first; threads: 2-3 threads parsing on one shared never-optimised model, all interleavings at line granularity in '
+               'the same call executed first; fresh interpreters under 8 hash seeds; threads: 2-3 threads parsing on one shared never-optimised model, all interleavings at line granularity in '
                f'{len(WHITELIST)} functions touching shared state up to a preemption bound (and in {len(WHITELIST_WIDE)} functions, incl. state export and model building, with one preemption); non-trivial = history of length > 1 / schedule with a preemption')
     rc.coverage.update({'states': c.get('states', 0), 'transitions': c.get('transitions', 0),
                         'traces_validated_against_impl': c.get('evaluations', 0)})
